@@ -294,3 +294,21 @@ mut("N: subgraph-id bit operations with commuted operands", [
 mut("C14 sector starts from a graph that already lost edge 0", [(SAM, "        .get_full_subgraph_id();\n\n    while !graph.is_empty() {", "        .get_full_subgraph_id()\n        .pop_edge(0);\n\n    while !graph.is_empty() {")], C14="C14-i")
 mut("C14 single-edge branch removes edge 0 instead of the remaining edge", [(SAM, "            let graph_without_edge = graph.pop_edge(edge);\n            (edge, graph_without_edge)", "            let graph_without_edge = graph.pop_edge(0);\n            (edge, graph_without_edge)")], C14="C14-i", C07="C07-a")
 mut("N: sector loop as loop { if empty { break } … }", [(SAM, "    while !graph.is_empty() {\n        // this saves a random variable", "    loop {\n        if graph.is_empty() {\n            break;\n        }\n        // this saves a random variable")], **ALLP)
+
+# ---- C06-e / C06-f / C05-e ----
+mut("C06 builder accepts a zero generalised dod", [(PRE, "if generalized_dod <= 0.0 && !subgraph.is_empty()", "if generalized_dod < 0.0 && !subgraph.is_empty()")], C06="C06-e")
+mut("C06 N: rejection test written as !(gdod > 0)", [(PRE, "if generalized_dod <= 0.0 && !subgraph.is_empty()", "if !(generalized_dod > 0.0) && !subgraph.is_empty()")], C06=None, C05=None)
+mut("C06 entry asserts the open unit cube", [(LIB, "        sample(\n            &self.table,\n            x_space_point,", "        assert!(x_space_point.iter().all(|x| x > &x.zero() && x < &x.one()), \"point outside the open cube\");\n        sample(\n            &self.table,\n            x_space_point,")], C06="C06-f")
+mut("C06 sector asserts a positive edge uniform", [(SAM, "            tropical_subgraph_table.sample_edge(rng.get_random_number(Some(\"sample_edge\")), &graph)", "            {\n                let u_edge = rng.get_random_number(Some(\"sample_edge\"));\n                assert!(u_edge > &u_edge.zero());\n                tropical_subgraph_table.sample_edge(u_edge, &graph)\n            }")], C06="C06-f")
+mut("C06 N: entry asserts the point is long enough", [(LIB, "        sample(\n            &self.table,\n            x_space_point,", "        assert!(x_space_point.len() >= self.get_dimension(), \"point too short\");\n        sample(\n            &self.table,\n            x_space_point,")], C06=None, C14=None, C17=None)
+mut("C05 build_sampler refuses a non-finite normalisation", [(LIB, "        Ok(SampleGenerator {\n            loop_signature,", "        if !table.cached_factor.is_finite() {\n            return Err(format!(\"normalisation not finite: {}\", table.cached_factor));\n        }\n        Ok(SampleGenerator {\n            loop_signature,")], C05="C05-e")
+
+# ---- C12-f ----
+mut("C12 exponential shortcut for |a-1| <= 1e-6", [(GAM, "    if (1.0 - 1.0e-8..=1.0 + 1.0e-8).contains(&a) {", "    if (1.0 - 1.0e-6..=1.0 + 1.0e-6).contains(&a) {")], C12="C12-f")
+mut("C12 exponential shortcut with single-precision window (abs form)", [(GAM, "    if (1.0 - 1.0e-8..=1.0 + 1.0e-8).contains(&a) {", "    if (a - 1.0).abs() <= f32::EPSILON as f64 {")], C12="C12-f")
+mut("C12 large-shape shortcut with || instead of &&", [(GAM, "        if a >= 500.0 && (1.0 - w / a).abs() < 1.0e-6 {", "        if a >= 500.0 || (1.0 - w / a).abs() < 1.0e-6 {")], C12="C12-f")
+mut("C12 large-shape shortcut from a >= 50", [(GAM, "        if a >= 500.0 && (1.0 - w / a).abs() < 1.0e-6 {", "        if a >= 50.0 && (1.0 - w / a).abs() < 1.0e-6 {")], C12="C12-f")
+mut("C12 converged iterate corrected once more before it is returned", [(GAM, "        if err.abs() < epsilon_tolerance * f64::EPSILON {\n            return x_n;", "        if err.abs() < epsilon_tolerance * f64::EPSILON {\n            return x_n - err / r;")], C12="C12-f")
+mut("C12 tail shortcut threshold raised to 1e-12", [(GAM, "            if b <= 1.0e-28 {", "            if b <= 1.0e-12 {")], C12="C12-f")
+mut("C12 N: exponential shortcut window narrowed, abs form", [(GAM, "    if (1.0 - 1.0e-8..=1.0 + 1.0e-8).contains(&a) {", "    if (a - 1.0).abs() <= 1.0e-9 {")], C12=None)
+mut("C12 N: shortcut written with two comparisons", [(GAM, "    if (1.0 - 1.0e-8..=1.0 + 1.0e-8).contains(&a) {", "    if a >= 1.0 - 1.0e-8 && a <= 1.0 + 1.0e-8 {")], C12=None)
